@@ -599,6 +599,23 @@ class ConvertTypesBounded:
         return f
 
 
-TARGETS = [ComponentVariables(), InstanceVariables(), ConfigurationLayers(), PatchInVariableFiles(), LayerManyVariableFiles()]
+# "The value of every option and variable ... equals the result of layering": a configuration answered from the cache after a
+# layer was WRITTEN is part of that statement.  The variable setters and the cache protocol of C08 are therefore part of this
+# check too (same contracts, same real code; see contracts/C08.py).
+import contracts.C08 as _c08
+
+
+def _shared(t):
+    cls = type('C04_' + type(t).__name__, (type(t),), {'prop': 'C04'})
+    o = cls.__new__(cls)
+    o.__dict__.update(t.__dict__)
+    return o
+
+
+LAYER_WRITERS = [_shared(t) for t in _c08.MUTATORS if getattr(t, 'method', '') in (
+    'set_global_variable', 'set_stage_variable', 'set_platform_global_variable', 'set_platform_stage_variable',
+    'set_component_variable', 'set_component_option')] + [_shared(_c08.CacheProtocol())]
+
+TARGETS = LAYER_WRITERS + [ComponentVariables(), InstanceVariables(), ConfigurationLayers(), PatchInVariableFiles(), LayerManyVariableFiles()]
 LEMMAS = []
 BOUNDED = [OverrideObjectBounded(), InterpolationBounded(), ConvertTypesBounded()]
